@@ -73,3 +73,11 @@ __attribute__((used, visibility("default"))) const char* __lsan_default_options(
 __attribute__((no_instrument_function)) void __cyg_profile_func_enter(void*, void*) {}
 __attribute__((no_instrument_function)) void __cyg_profile_func_exit(void*, void*) {}
 }
+
+// tuning knob of the program (GM2CALC_VERIF hook in src/gm2calc.cpp): the real process takes it from the environment
+extern "C" unsigned gm2calc_verif_max_iterations(unsigned shipped)
+{
+   const char* e = getenv("CLISIM_MAXITER");
+   const long v = e ? atol(e) : 0;
+   return (v > 0 && (unsigned long)v < shipped) ? (unsigned)v : shipped;
+}
